@@ -323,6 +323,7 @@ Proof.
   destruct (rt <=? 0) eqn:E3; [inv_auto|].
   destruct (m_interval m <? 0) eqn:E4; [inv_auto|].
   destruct (negb (m_auth m =? AUTHORITY)); [inv_auto|].
+  destruct (m_denom m =? BOND_DENOM); [inv_auto|].
   read_asset; [inv_auto|].
   apply inv_bind; [inv_auto|]; intros t. apply inv_bind; [inv_auto|]; intros dl.
   apply inv_set_asset. cbn in Et. apply orb_false_elim in E2; destruct E2. apply orb_false_elim in Et; destruct Et.
